@@ -5,6 +5,9 @@ From TK Require Import Mat_Sums Mat_Core Mat_Qc Proj_Model Proj_Spec Pca_Model P
    functions the theorems of Properties_C06.v (instantiated at Qc) are about *)
 Definition c06_cov := @pca_matrix_exec Qc QcOps.
 Definition c06_cov_old := @pca_matrix_old_exec Qc QcOps.
+(* the expanded form E[xx^T] - mean mean^T shipped between fix F8 and fix F49 (equal to c06_cov over Qc:
+   theorem C06_cov_centred_and_expanded; kept so that the check can observe that equality on every exact case) *)
+Definition c06_cov_expanded := @pca_matrix_expanded_exec Qc QcOps.
 Definition c06_mean := @compute_mean_exec Qc QcOps.
 Definition c06_seen_dense := @seen_dense_exec Qc QcOps.
 Definition c06_seen_randomized := @seen_randomized_exec Qc QcOps.
@@ -15,6 +18,6 @@ Definition c06_spec_uncorrelated := uncorrelated_tol_b.
 Definition c06_spec_retained := retained_tol_b.
 Definition c06_spec_not_better := not_better_tol_b.
 Definition c06_spec_output := output_consistent_tol_b.
-Extraction "c06_model.ml" c06_cov c06_cov_old c06_mean c06_seen_dense c06_seen_randomized
+Extraction "c06_model.ml" c06_cov c06_cov_old c06_cov_expanded c06_mean c06_seen_dense c06_seen_randomized
   c06_spec_cov_dense c06_spec_cov_randomized c06_spec_eig c06_spec_uncorrelated c06_spec_retained
   c06_spec_not_better c06_spec_output Q2Qc this.
